@@ -253,6 +253,11 @@ class ForkNext(Unit):
             ex.oblige(st, f'line {node.lineno}: the consumption count is updated under the element\'s lock, by exactly one', z3.And(self.boxlock.held(st) >= 1, v == st.ghost['n_read'] + 1))
             st.ghost['n_after'] = v
             return [('ok', st, None)]
+        if attr == 'value':
+            # the payload of a published element is read by every fork WITHOUT a lock (after its own count): it must never change (guarantee of
+            # every fork = rely of `box.value == src_at(i)` above)
+            ex.oblige(st, f'line {node.lineno}: the payload of a published element is never written (peers read it without the lock: a fork that is not the last one may still be about to return it)', False)
+            return [('ok', st, None)]
         raise Unsupported(f'box.{attr} =')
 
     # ---- the recursive call `return self.__next__()` by the function's own contract
